@@ -195,8 +195,155 @@ def check_case(ctx, text, doc, cls):
     if canon(doc) != orig:
         ctx.violation("original-document-modified", case, {"text": text})
         return
+    if ms and (cls in ("names", "flags-history") or ctx.rng.random() < 0.35):
+        v = in_place_sequence(ctx, text, doc, orig)
+        if v:
+            ctx.violation(v[0], case, dict(v[1], text=text))
+            return
     if ms and (len(ctx.samples) < 3 or ctx.rng.random() < 0.003):
         ctx.sample({"text": text, "matches": len(ms), "pointers": impl.call(lambda: [str(m.pointer()) for m in ms[:3]]).value})
+
+
+def _walk(doc, parts):
+    """The node at parts by plain indexing with the match's own step kinds (str into objects, int into arrays)."""
+    cur = doc
+    for p in parts:
+        if isinstance(p, str) and isinstance(cur, dict) and p in cur:
+            cur = cur[p]
+        elif isinstance(p, int) and not isinstance(p, bool) and isinstance(cur, list) and -len(cur) <= p < len(cur):
+            cur = cur[p]
+        else:
+            raise LookupError(p)
+    return cur
+
+
+def _kinds_differ(doc, parts):
+    cur = doc
+    for p in parts:
+        if isinstance(cur, dict):
+            if not isinstance(p, str):
+                return True
+            if p not in cur:
+                return False
+            cur = cur[p]
+        elif isinstance(cur, list):
+            if not isinstance(p, int):
+                return True
+            if not -len(cur) <= p < len(cur):
+                return False
+            cur = cur[p]
+        else:
+            return False
+    return False
+
+
+def in_place_sequence(ctx, text, doc, orig):
+    """One document object, queried once; the matches and their pointer objects are kept while the caller goes on working
+    on that same object: containers above kept matches are replaced by equal copies (by assignment and by a patch through a
+    kept pointer), then test / replace / remove patches built from the kept pointers are applied IN PLACE, one after the
+    other. After every step the document must equal the harness's model, where the same edit is made by walking the
+    match's parts; a kept pointer whose location no longer exists must be refused and leave the document alone."""
+    import random
+
+    import jsonpath
+
+    r = random.Random(h(text, orig))
+    work = copy.deepcopy(doc)
+    o = impl.call(lambda: list(jsonpath.finditer(text, work)))
+    if not o.ok:
+        return None
+    kept = []
+    for m in o.value:
+        ptr = impl.call(m.pointer)
+        if not ptr.ok:
+            return None
+        if m.parts:
+            kept.append((tuple(m.parts), ptr.value, m))
+    if not kept:
+        return None
+    if len(kept) > 12:
+        kept = r.sample(kept, 12)
+    model = copy.deepcopy(work)
+    # refresh: equal copies put where containers above kept matches are
+    for parts, ptr, m in kept[:4]:
+        for cut in range(1, len(parts)):
+            anc = parts[:cut]
+            try:
+                node = _walk(work, anc)
+                par = _walk(work, anc[:-1])
+            except LookupError:
+                continue
+            if not isinstance(node, (dict, list)):
+                continue
+            if r.random() < 0.5:
+                par[anc[-1]] = copy.deepcopy(node)
+                ctx.count("in_place_ancestors_refreshed_by_assignment")
+            else:
+                am = next((x for x in kept if x[0] == anc), None)
+                if am is None:
+                    par[anc[-1]] = copy.deepcopy(node)
+                    ctx.count("in_place_ancestors_refreshed_by_assignment")
+                else:
+                    rr = impl.call(jsonpath.JSONPatch().replace(am[1], copy.deepcopy(node)).apply, work)
+                    ctx.count("in_place_ancestors_refreshed_by_a_patch_through_a_kept_pointer")
+                    if not rr.ok or rr.value is not work:
+                        return "in-place-refresh-through-kept-pointer-failed", {"parts": list(anc), "outcome": rr.desc() if not rr.ok else "another object returned"}
+    if not strict_eq(work, model):
+        return "replacing-a-node-by-an-equal-copy-changed-the-document", {"got": canon(work)[:300], "expected": canon(model)[:300]}
+    new = {"NEW": ["replacement", 424242]}
+    order = list(kept)
+    r.shuffle(order)
+    for step, (parts, ptr, m) in enumerate(order):
+        what = r.choice(["test", "test-other", "replace", "replace", "remove"])
+        detail = {"step": step, "op": what, "parts": list(parts), "pointer": str(ptr), "steps_before": [[list(x[0])] for x in order[:step]][:8]}
+        markers = any(isinstance(p, str) and p[:1] in "#~" for p in parts)
+        try:
+            cur = _walk(model, parts)
+            there = True
+        except LookupError:
+            there = False
+        if not there and _kinds_differ(model, parts):
+            # after earlier steps an integer step now meets an object (or a name an array): RFC 6901 tokens are text,
+            # so the pointer may legitimately read 2 as the member "2"; that reading is C04's subject, not judged here
+            impl.call(jsonpath.JSONPatch().test(ptr, 0).apply, work)
+            ctx.count("in_place_steps_not_judged_step_kind_changed")
+            if not strict_eq(work, model):
+                return "test-in-place-changed-the-document", detail
+            continue
+        if what == "test":
+            patch = jsonpath.JSONPatch().test(ptr, copy.deepcopy(cur) if there else 0)
+            want = model
+        elif what == "test-other":
+            patch = jsonpath.JSONPatch().test(ptr, ["a value found nowhere in the document"])
+            want, there = model, False
+        elif what == "replace":
+            patch = jsonpath.JSONPatch().replace(ptr, copy.deepcopy(new))
+            want = edit(model, parts, "replace", copy.deepcopy(new)) if there else model
+        else:
+            patch = jsonpath.JSONPatch().remove(ptr)
+            want = edit(model, parts, "remove") if there else model
+        res = impl.call(patch.apply, work)
+        ctx.count("in_place_steps_through_kept_pointers")
+        ctx.cell("in_place_op_x_outcome", "%s %s" % (what, "applies" if there else "must be refused"))
+        if there:
+            if not res.ok:
+                return "%s-in-place-through-kept-match-pointer-failed:%s" % (what, type(res.exc).__name__), dict(detail, error=res.desc())
+            if res.value is not work and parts:
+                return "in-place-application-returned-another-object", detail
+        else:
+            if res.ok and not markers:
+                return "%s-in-place-through-kept-match-pointer-succeeds-where-the-location-does-not-%s" % (what, "hold-that-value" if what == "test-other" else "exist"), dict(detail, document=canon(model)[:300])
+            if not res.ok and not isinstance(res.exc, jsonpath.JSONPatchError):
+                return "%s-in-place-through-kept-match-pointer-raised-outside-the-documented-family:%s" % (what, type(res.exc).__name__), dict(detail, error=res.desc())
+            if res.ok:
+                ctx.count("in_place_marker_names_not_judged")
+                model = copy.deepcopy(work)
+                continue
+        if not strict_eq(work, want):
+            return "%s-in-place-through-kept-match-pointer-edits-wrong-node" % what, dict(detail, got=canon(work)[:300], expected=canon(want)[:300])
+        model = want
+    ctx.count("in_place_sequences")
+    return None
 
 
 def flags_history(ctx):
